@@ -126,7 +126,7 @@ pub fn worker_main(args: &Args) -> i32 {
                             "fired": o.fired, "items": o.items, "errs": o.errs, "ends": o.ends,
                             "digest": format!("{:016x}", o.digest)}));
                     }
-                    if let Some(v) = &o.violation {
+                    if let Some(v) = o.violation.as_ref().filter(|v| engines::class_belongs(&prop, &v.class)) {
                         let n = seen_classes.entry(v.class.clone()).or_default();
                         *n += 1;
                         if *n == 1 {
